@@ -40,7 +40,8 @@ def compare(mod, r):
     if "rel" in r and r["rel"] != r["dev"]:
         return ("devrel", "debug and release builds answer differently")
     canon = getattr(mod, "canon", lambda c, a: a)
-    a, m = canon(case, r["dev"]), canon(case, r["model"])
+    from vlib.props.C04 import canon as fps_canon   # the model prints fps as an exact rational, the crate as f64 bits
+    a, m = canon(case, fps_canon(case, r["dev"])), canon(case, fps_canon(case, r["model"]))
     if a == m:
         return None
     from check import leaves
